@@ -10,6 +10,7 @@ import (
 	"errors"
 	"fmt"
 	"math/big"
+	"sync/atomic"
 
 	"go.starlark.net/starlark"
 	"go.starlark.net/syntax"
@@ -84,7 +85,9 @@ func (m *Module) StringDict() starlark.StringDict {
 type Interp struct {
 	Thread *starlark.Thread
 	Fuel   int
-	stack  []*activation
+	// Abort, when set (by a memory watchdog), ends the execution like an exhausted fuel budget.
+	Abort atomic.Bool
+	stack []*activation
 }
 
 type fileCtx struct {
@@ -553,6 +556,10 @@ type exec struct {
 
 func (x *exec) tick() error {
 	in := x.fc.in
+	if in.Abort.Load() {
+		in.Fuel = 1
+		return ErrFuel
+	}
 	if in.Fuel > 0 {
 		in.Fuel--
 		if in.Fuel == 0 {
